@@ -511,39 +511,65 @@ pub fn run_batch(prop: &dyn Property, tier: Tier) -> i32 {
             v.class
         ));
         let _ = std::fs::create_dir_all(&replay_dir);
-        let replay = json!({
-            "property": prop.id(),
-            "engine": prop.engine(),
-            "verif_seed": seed,
-            "unit": if unit == u64::MAX { J::Null } else { json!(unit) },
-            "case": min_case,
-            "violation": {"class": v.class, "detail": detail, "signature": sig},
-            "minimised": steps > 0,
-            "minimise_steps": steps,
-            "unminimised_case": case,
-        });
-        if let Err(e) = std::fs::write(&path, serde_json::to_string_pretty(&replay).unwrap()) {
-            eprintln!("harness error: cannot write replay file: {e}");
-            return 2;
+        // Candidates, most useful first: the minimised case, the case as found, and — for a
+        // violation that depends on what the worker process did before (state the case does not
+        // capture) — the whole unit re-run in a child process. The first one that fails the same
+        // way in a FRESH process becomes the replay file; if none does, that is a harness error.
+        let mut candidates: Vec<(J, bool, &str)> = vec![(min_case.clone(), steps > 0, "minimised")];
+        if unit != u64::MAX && case.get("rerun_unit").is_none() {
+            if min_case != case {
+                candidates.push((case.clone(), false, "as found"));
+            }
+            candidates.push((
+                json!({"rerun_unit": unit, "verif_seed": seed, "tier": tier.name()}),
+                false,
+                "whole unit re-run",
+            ));
         }
-        // replay in a fresh process; it must fail the same way
-        if unit != u64::MAX {
+        let mut reproduced = false;
+        for (cand, minimised, what) in &candidates {
+            let replay = json!({
+                "property": prop.id(),
+                "engine": prop.engine(),
+                "verif_seed": seed,
+                "unit": if unit == u64::MAX { J::Null } else { json!(unit) },
+                "case": cand,
+                "violation": {"class": v.class, "detail": detail, "signature": sig},
+                "minimised": minimised,
+                "minimise_steps": steps,
+                "replay_form": what,
+                "unminimised_case": case,
+            });
+            if let Err(e) = std::fs::write(&path, serde_json::to_string_pretty(&replay).unwrap()) {
+                eprintln!("harness error: cannot write replay file: {e}");
+                return 2;
+            }
+            // replay in a fresh process; it must fail the same way
+            if unit == u64::MAX {
+                reproduced = true;
+                break;
+            }
             let exe = std::env::current_exe().unwrap();
-            let st = Command::new(exe)
-                .arg("replay")
-                .arg(&path)
-                .stdout(Stdio::null())
-                .status();
+            let st = Command::new(exe).arg("replay").arg(&path).stdout(Stdio::null()).status();
             match st {
-                Ok(s) if s.code() == Some(1) => {}
+                Ok(s) if s.code() == Some(1) => {
+                    reproduced = true;
+                    break;
+                }
                 other => {
                     eprintln!(
-                        "harness error: replay of {} in a fresh process did not reproduce ({other:?})",
+                        "note: replay of {} ({what}) in a fresh process did not reproduce ({other:?})",
                         path.display()
                     );
-                    return 2;
                 }
             }
+        }
+        if !reproduced {
+            eprintln!(
+                "harness error: no form of {} reproduces in a fresh process",
+                path.display()
+            );
+            return 2;
         }
         println!("violation class={} detail={}", v.class, detail);
         println!("VIOLATION property={} replay={}", prop.id(), path.display());
